@@ -340,6 +340,9 @@ EXTRA = EXTRA + [regex_backtracking]
 from contracts import c01_attach as _att  # noqa: E402
 
 EXTRA = EXTRA + list(_att.EXTRA)
+from contracts import c01_recursion as _rec  # noqa: E402
+
+EXTRA = EXTRA + [_rec.recursion]
 from contracts import c01_parser as _prs  # noqa: E402
 
 EXTRA = EXTRA + [_prs.validate_model]
@@ -380,5 +383,7 @@ ASSUMPTIONS = ["EXC-ANY: un-contracted calls may raise any Exception subclass (B
 # `decreases#while-k` obligations are enumerated from the source (one per `while` found by pyvc.term.while_loops): a locked one may
 # disappear when the loop is no longer in the code, as long as the per-file scan obligation (`<file>::*/decreases#for-loops-finite`,
 # produced by the same run over the same file) is there -- the remaining and the new loops (a helper the loop moved into) get their own
-LOCK_FILE_COVERAGE = {"decreases#while-": "::*/decreases#for-loops-finite"}
+LOCK_FILE_COVERAGE = {"decreases#while-": "::*/decreases#for-loops-finite",
+                      # recursive functions are enumerated from the source too (contracts/c01_recursion.py): same rule, own scan obligation
+                      "decreases#recursion-": "::*/decreases#every-recursion-listed", "decreases#mutual-recursion-": "::*/decreases#every-recursion-listed"}
 REPLAY_UNKNOWN = True    # undecided / out-of-subset items are searched natively (replay) before being reported UNDECIDED
